@@ -388,10 +388,11 @@ impl Property for C10 {
     }
     fn strategy(&self, tier: Tier) -> BoxedStrategy<Case> {
         let (maxdim, maxrows) = tier.pick((4usize, 10usize), (6, 16));
-        (1..=maxdim)
+        sized(maxdim, maxdim + 3)
             .prop_flat_map(move |n| {
                 let sys = prop_oneof![
-                    9 => poly_spec(n, 0, maxrows).prop_map(Sys::Spec),
+                    8 => poly_spec(n, 0, maxrows).prop_map(Sys::Spec),
+                    1 => poly_spec(n, maxrows, 2 * maxrows + 4).prop_map(Sys::Spec),
                     1 => (1..=maxrows).prop_flat_map(move |m| aff_of(m, n, (-10.0f64..10.0).boxed())).prop_map(Sys::Raw),
                 ];
                 (sys, proptest::collection::vec(obj_spec(n), 1..4))
